@@ -263,11 +263,15 @@ def run(ctx):
     r, I = ctx.run(mk, no_inline=(RU + 'format_header_line',))
     adv = [e for e in I.events if e.kind == 'store' and e.data.get('target') == 'sub'
            and e.data['key'].key == lift('PKTIDX').key]
-    ctx.require(adv, '_make_header no longer advances PKTIDX')
-    ok = len(adv) == 1 and adv[0].data.get('aug') == 'Add' and not adv[0].pc and not adv[0].loops
-    ctx.ob('MUSTASSIGN', 'PKTIDX is advanced exactly once on every normal path', mk, ok,
-           {'stores': [e.text() for e in adv], 'pc': [pretty(c) for e in adv for c in e.pc]}, node=adv[0].node)
-    if adv[0].data.get('rhs') is not None:
+    if not adv:
+        ctx.ob('MUSTASSIGN', 'PKTIDX is advanced by the header writer exactly once per block', mk, False,
+               {'stores_into_PKTIDX': []}, node=mk.node, construct="header_dict['PKTIDX'] += samples_per_block")
+        adv = None
+    ok = adv is not None and len(adv) == 1 and adv[0].data.get('aug') == 'Add' and not adv[0].pc and not adv[0].loops
+    if adv is not None:
+        ctx.ob('MUSTASSIGN', 'PKTIDX is advanced exactly once on every normal path', mk, ok,
+               {'stores': [e.text() for e in adv], 'pc': [pretty(c) for e in adv for c in e.pc]}, node=adv[0].node)
+    if adv is not None and adv[0].data.get('rhs') is not None:
         ctx.formula('FORMULA', 'PKTIDX step == samples_per_block', mk, adv[0].data['rhs'],
                     ctx.spec(mk, 'self.samples_per_block'), node=adv[0].node)
     writes = ctx.calls(I, name='.write')
@@ -346,6 +350,29 @@ def run(ctx):
         ok = ok and exact
     ctx.ob('FORMULA', 'format_header_line pads (never truncates) to 80 columns', fh, ok,
            {'return': pretty(r.ret)[:200]}, node=fh.node, construct='return line')
+    REF_READ_HEADER = """
+def read_header(filename):
+    header_dict = {}
+    with open(filename, "rb") as f:
+        chunk = f.read(80)
+        while f"{'END':<80}".encode() not in chunk:
+            key, val = get_header_key_val(chunk.decode())
+            header_dict[key] = val
+            chunk = f.read(80)
+    return header_dict
+"""
+    from .common import agree_ref
+    rhf = ctx.func(RU + 'read_header')
+    (rA, IA), (rB, IB) = agree_ref(ctx, rhf, REF_READ_HEADER, 'read_header: 80-byte cards are collected until the card that is exactly '
+                                   'END padded to 80 columns', what=('substores', 'loopstores'))
+    la = [e for e in IA.events if e.kind == 'loop']
+    lb = [e for e in IB.events if e.kind == 'loop']
+    if len(la) == 1 and len(lb) == 1 and la[0].data['info'].get('cond') is not None:
+        ctx.formula('AGREE', 'read_header stops at the END card (the whole 80-column card, not a prefix match)', rhf,
+                    la[0].data['info']['cond'], lb[0].data['info']['cond'], node=la[0].node, construct='while <END card not seen>')
+    else:
+        ctx.ob('AGREE', 'read_header iterates over cards with one loop', rhf, False, {'loops': [e.text()[:60] for e in la]},
+               node=rhf.node, construct='read_header loop')
     rh = ctx.func(RU + 'read_header')
     r, I = ctx.run(rh)
     reads = ctx.calls(I, name='.read')
